@@ -170,7 +170,6 @@ func (mr *msgReader) abandonFlate() {
 
 func (mr *msgReader) close() {
 	mr.c.vEv("MrCloseConn", 0, 0, 0, 0)
-	mr.c.readMu.forceLock()
 	mr.putFlateReader()
 	if mr.dict != nil {
 		mr.c.vObj("PoolPut", "sw", mr.dict)
@@ -373,8 +372,7 @@ func (c *Conn) handleControl(ctx context.Context, h header) (err error) {
 	err = fmt.Errorf("received close frame: %w", ce)
 	c.writeClose(ce.Code, ce.Reason)
 	c.msgReader.abandonFlate()
-	c.readMu.unlock()
-	c.close()
+	c.closeWith(true)
 	return err
 }
 
